@@ -210,6 +210,8 @@ def shrink_case(case, fails_with):
 
 def oracle_on(case, res):
     if not res["ok"]:
+        if "Factor is exactly singular" in res["error"] and "inverse_power_method" in res.get("trace", ""):
+            return [("crash/singular-operator", "the implementation raised %s" % res["error"])]
         return [("crash", "the implementation raised %s" % res["error"])]
     try:
         return ORA.check(case, res["obs"])
